@@ -155,4 +155,24 @@ def cached_node_property(name):''')]),
                 tree.info[node].pop(k, None)
         tree.contraction_cores.clear()
 '''),
+    dict(name="round2: sliced leaf keeps its cached size", kind="break", file=CORE,
+         old="                    tree._remove_node(node)\n                    tree.sliced_inputs = tree.sliced_inputs | frozenset([i])",
+         new="                    for k in (\"legs\", \"inds\"):\n                        node_info.pop(k, None)\n                    tree.preprocessing.pop(i, None)\n                    tree.sliced_inputs = tree.sliced_inputs | frozenset([i])",
+         expect=("C02-LISTS", "leaf::size")),
+    dict(name="twin: sliced leaf drops legs, inds and size by hand", kind="twin", file=CORE,
+         old="                    tree._remove_node(node)\n                    tree.sliced_inputs = tree.sliced_inputs | frozenset([i])",
+         new="                    for k in (\"legs\", \"inds\", \"size\"):\n                        node_info.pop(k, None)\n                    tree.preprocessing.pop(i, None)\n                    tree.sliced_inputs = tree.sliced_inputs | frozenset([i])"),
+    dict(name="round2: contractor memo keyed by the order's name", kind="break", file=CORE,
+         old="        key = (\n            autojit,\n            order,\n", new="        key = (\n            autojit,\n            getattr(order, \"__qualname__\", order),\n",
+         expect=("C02-COREKEY", "get_contractor")),
+    dict(name="contractor memo key drops check_zero", kind="break", file=CORE,
+         old="            strip_exponent,\n            check_zero,\n            implementation,\n            progbar,\n        )\n        try:",
+         new="            strip_exponent,\n            implementation,\n            progbar,\n        )\n        try:",
+         expect=("C02-COREKEY", "get_contractor")),
+    dict(name="round2: slice() models self after unslicing the copy", kind="break", file=CORE,
+         old="        sf = SliceFinder(\n            tree,", new="        sf = SliceFinder(\n            self,",
+         expect=("C02-PURE", "slice")),
+    dict(name="twin: original consulted before anything changed", kind="twin", file=CORE,
+         old="        if ind in tree.sliced_inds:\n            raise ValueError(f\"Index {ind} already sliced.\")",
+         new="        if ind in self.sliced_inds:\n            raise ValueError(f\"Index {ind} already sliced.\")"),
 ]
